@@ -45,9 +45,17 @@ def discharge_valid(r, name, hyps, goal, kind="post", axioms=(), detail_ok=""):
         return DISCHARGED
     status, model, secs, smt2 = B.z3_prove(hyps, goal, axioms=axioms, seed=TIER["seed"], want_smt2=(TIER["tier"] == "thorough"))
     backend = "z3-5.1"
+    if status == "proved" and TIER["tier"] == "thorough":
+        # stability: the verdict must not depend on the solver's random seed
+        for extra in (1, 2):
+            st2 = B.z3_prove(hyps, goal, axioms=axioms, seed=TIER["seed"] + extra)[0]
+            if st2 != "proved":
+                r.add(name, UNDECIDED, "z3-5.1(seeds)", secs, "verdict depends on the solver seed: %s with seed+%d" % (st2, extra), kind=kind)
+                return UNDECIDED
+        backend = "z3-5.1(3 seeds)"
     if status == "proved" and TIER["tier"] == "thorough" and smt2:
         c = B.cvc5_check(smt2)
-        backend = "z3-5.1+cvc5(%s)" % c
+        backend = backend + "+cvc5(%s)" % c
         if c == "sat":
             r.add(name, UNDECIDED, backend, secs, "solver disagreement: z3 unsat, cvc5 sat", kind=kind)
             return UNDECIDED
